@@ -296,6 +296,31 @@ def config_history_case(args):
     return out
 
 
+def language_threshold_probe(args):
+    """fixed example (a test): a stringly-typed threshold that is overridden for one language, files of two languages, two orders"""
+    (root,) = args
+    from src.orchestrator.core import Orchestrator
+    proj = Path(root) / "langprobe"
+    out = {"errors": []}
+    try:
+        proj.mkdir(parents=True)
+        (proj / ".git").mkdir()
+        (proj / ".thailint.yaml").write_text("stringly-typed:\n  enabled: true\n  typescript:\n    max_values_for_enum: 2\n")
+        body = "def mode_%s(kind):\n    if kind in (\"alpha\", \"beta\", \"gamma\"):\n        return 1\n    return 0\n"
+        (proj / "a.py").write_text(body % "a")
+        (proj / "b.py").write_text(body % "b")
+        (proj / "c.ts").write_text("export function f(x: number): number {\n  return x;\n}\n")
+        a, b, c = proj / "a.py", proj / "b.py", proj / "c.ts"
+        for label, order in (("python first", [a, b, c]), ("typescript first", [c, a, b])):
+            core._reset_singletons()  # noqa: SLF001
+            out[label] = sorted(tok(v) for v in Orchestrator(project_root=proj).lint_files(order) if v.rule_id.startswith("stringly"))
+    except Exception as exc:  # noqa: BLE001
+        out["errors"].append(f"{type(exc).__name__}: {exc}")
+    finally:
+        shutil.rmtree(proj, ignore_errors=True)
+    return out
+
+
 def run(tier: str, seed: int, st: core.ProofStatus) -> core.Result:
     res = core.Result()
     res.rule = ("(i) seeded histories (4-10 steps: Linter.lint on the directory or a file, edits that add/remove duplicate blocks, "
@@ -312,9 +337,18 @@ def run(tier: str, seed: int, st: core.ProofStatus) -> core.Result:
         hist = core.pmap(history_case, [(i, rng.randrange(1 << 30), str(root)) for i in range(nh)], procs=16)
         perms = core.pmap(perm_case, [(i, rng.randrange(1 << 30), str(root)) for i in range(npm)], procs=16)
         subs = core.pmap(subprocess_case, [(i, rng.randrange(1 << 30), str(root)) for i in range(nsp)], procs=8)
+        langp = core.pmap(language_threshold_probe, [(str(root),)], procs=1)[0]
         cfgh = core.pmap(config_history_case, [(i, rng.randrange(1 << 30), str(root)) for i in range(max(8, nh // 4))], procs=16)
     finally:
         shutil.rmtree(root, ignore_errors=True)
+    res.evaluations += 1
+    if langp["errors"]:
+        res.disagreements.append(core.Disagreement(case={"kind": "language-threshold example"}, impl=langp["errors"], model=None, spec=None, property_fails=False, note=langp["errors"][0][:300]))
+    else:
+        res.bump("language-threshold example", "orders agree" if langp["python first"] == langp["typescript first"] else "orders differ")
+        if langp["python first"] != langp["typescript first"]:
+            res.findings.setdefault("F08h", {"config": "stringly-typed: {typescript: {max_values_for_enum: 2}}", "files": ["a.py", "b.py", "c.ts"],
+                                             "python_first": len(langp["python first"]), "typescript_first": len(langp["typescript first"])})
     for i, ch in enumerate(cfgh):
         res.evaluations += 1
         res.bump("config_history_steps", len(ch["steps"]))
